@@ -29,8 +29,8 @@ func (c vxC10Case) String() string {
 }
 
 type vxC10Res struct {
-	FirstRaisePolls int   // polls between first 0 reading and first raise (-1 = none)
-	MaxGapPolls     int   // worst poll gap between consecutive raises while stalled
+	FirstRaisePolls int // polls between first 0 reading and first raise (-1 = none)
+	MaxGapPolls     int // worst poll gap between consecutive raises while stalled
 	Raises          int
 	Requests        []int // request at each raise
 	Outcome         string
